@@ -320,7 +320,9 @@ def oracle_delay(case, out):
                 expect_rn = None
             cur_op, n = e[1], e[2]
             no_add = False
-            if cur_op in ("add", "reset"):
+            if cur_op in ("add", "reset", "addif") and n < 0:
+                pass                                  # name=None: a fresh uuid name, touches nothing
+            elif cur_op in ("add", "reset"):
                 live.pop(n, None)
             elif cur_op == "addif":
                 no_add = n in live
